@@ -24,7 +24,7 @@ FUNCTIONS = ['OpenQLCircuitFactoryManager.construct', 'OpenQLCircuitFactoryManag
              'NameBasedOperationsFactory.construct', 'BarrierOperationsFactory.construct', 'WaitOperationsFactory.construct', 'CompositeCPhaseOperationsFactory.construct', 'get_qubit_index']
 BOUNDS = {'quick': "every operation class alone and inside a repeated sub-circuit (count 1..3) between two kernel operations; 500 seeded random programs over all classes (<= 4 steps per "
                    "circuit, nesting <= 2, counts 1..3); wait durations symbolic integers in [0, 3]",
-          'thorough': "3000 programs, <= 5 steps, nesting <= 3"}
+          'thorough': "25000 programs, <= 5 steps, nesting <= 3"}
 OUTSIDE = ["Program.compile() and the cQASM text (C++)", "non-integer wait durations (int() truncation)", "platform configuration (qubit count 17 of the shipped json)"]
 ASSUMPTIONS = ["the recording platform stands for OpenQL's Program/Kernel containers; execution order = kernels in the order they were added to the top-level program",
                "documented instruction of each supported class: the table of addon_openql/factory_manager.py, restated in this harness"]
@@ -53,7 +53,7 @@ def jobs(tier, seed):
         for rep in (1, 2, 3):
             out.append({'prog': {'steps': [{'k': ['G', 'Rx180', [1]], 'rel': None}, {'k': ['S', {'steps': [{'k': k, 'rel': None}, {'k': ['G', 'Ry90', [0]], 'rel': None}], 'rep': rep}], 'rel': None},
                                            {'k': ['G', 'Rx90', [1]], 'rel': None}]}})
-    n, steps, depth = (500, 4, 2) if tier == 'quick' else (3000, 5, 3)
+    n, steps, depth = (500, 4, 2) if tier == 'quick' else (25000, 5, 3)
     for _ in range(n):
         p = gen.random_program(rng, alpha, steps, depth, types='FSE', p_sub=0.3, p_rel=0.3, reps=(1, 2, 3), sub_rel=False)
         if gen.count_leaves(p) <= 30:
